@@ -191,10 +191,23 @@ func chansMergeRun[T any](r *R, enc func(int) T, dec func(T) int) {
 		}
 		total += counts[i]
 	}
-	r.Logf("config: chans.Merge arity=%d counts=%v outBuf=%d", arity, counts, outBuf)
+	// one of the inputs may be a nil channel: it never yields and is never exhausted, so Merge
+	// moves everything the other inputs send and then keeps waiting - on every code path
+	nilInput := -1
+	if arity >= 1 && arity <= 6 && r.Choose(10, "nil-channel-input") == 9 {
+		nilInput = r.Choose(arity, "nil-channel-index")
+		total -= counts[nilInput]
+		counts[nilInput] = 0
+		roIns[nilInput] = nil
+		r.Probe("chans-merge-nil-channel-input")
+	}
+	r.Logf("config: chans.Merge arity=%d counts=%v outBuf=%d nilInput=%d", arity, counts, outBuf, nilInput)
 	closed := 0
 	for i := range ins {
 		i := i
+		if i == nilInput {
+			continue
+		}
 		pace := r.Choose(3, "ppace")
 		sim.GoNamed(fmt.Sprintf("producer%d", i), func() {
 			for j := 0; j < counts[i]; j++ {
@@ -277,7 +290,7 @@ func chansMergeRun[T any](r *R, enc func(int) T, dec func(T) int) {
 		r.Violate("C12", "chans-merge/lost", "only %d of %d values arrived and nothing can run any more: %v", got, total, sim.TaskStates())
 		return
 	}
-	if !mergeReturned {
+	if !mergeReturned && nilInput < 0 {
 		r.Violate("C12", fmt.Sprintf("chans-merge/never-returns/arity-%s", arityClass(arity)), "all %d inputs are closed and all %d values were delivered, but chans.Merge has not returned: %v", arity, total, sim.TaskStates())
 		return
 	}
